@@ -113,6 +113,48 @@ def run(ctx):
     r = rng("c18")
     r.shuffle(cand)
     cand = cand[: (4000 if ctx.tier == "quick" else 40000)]
+    # (valid script, offending token) pairs made on purpose: ONE capability taken out of the `require` of a valid generated script
+    # (the first command or tag that needs it becomes the token that is wrong in itself), an unknown command appended at the end
+    import gen_scripts
+    made, mdiff = [], []
+    for t, m in zip(rec.text, rec.meta):
+        if m.get("stream") != "gen" or not m.get("need") or len(made) >= (600 if ctx.tier == "quick" else 6000):
+            continue
+        toks = [bytes.fromhex(h_) for h_ in m["tokens"]]
+        for ext in m["need"]:
+            q_ = b'"' + ext.encode() + b'"'
+            out, i, dropped = [], 0, False
+            while i < len(toks):
+                if toks[i].lower() == b"require" and b";" in toks[i:]:
+                    end = i + toks[i:].index(b";")
+                    body = [x for x in toks[i + 1:end] if x not in (b"[", b"]", b",")]
+                    if q_ in body:
+                        dropped = True
+                        body = [x for x in body if x != q_]
+                    if body:
+                        lst = [b"["]
+                        for k_, x in enumerate(body):
+                            lst += ([b","] if k_ else []) + [x]
+                        out += [b"require"] + lst + [b"]", b";"]
+                    i = end + 1
+                    continue
+                out.append(toks[i])
+                i += 1
+            if dropped:
+                made.append(gen_scripts.render(out, r, "space") + b"\nnosuchcommand;\n")
+    if made:
+        mi, _, mm = corr_parse.eval_both(made)
+        for x, a, mod in zip(made, mi, mm):
+            if a != mod:
+                mdiff.append({"suite": "parse", "input_hex": x.hex(), "input": x.decode("latin-1"), "impl": a[:300], "model": mod[:300]})
+            if a.startswith("reject "):
+                bad, p = check_location(x, a)
+                if bad:
+                    viol.append({"input_hex": x.hex(), "input": x.decode("latin-1"), "what": bad, "impl": a})
+                elif p is not None:
+                    cand.append((x, a, p))
+            else:
+                viol.append({"input_hex": x.hex(), "input": x.decode("latin-1"), "what": "a script that ends in an unknown command is not rejected: " + a[:80]})
     texts, expect = [], []
     for t, a, p in cand:
         parts = a.split(" ")
@@ -130,6 +172,15 @@ def run(ctx):
         texts.append(t[:p])
         expect.append((a, t, "before"))
     impl, ys, model = corr_parse.eval_both(texts)
+    # … and viable in the SUPPORTED language: the parser model on the frozen command table of the specification must not have
+    # rejected the text before the reported token either (a token "wrong in itself" — say a tag whose extension is not loaded —
+    # that the code lets pass is otherwise reported late, at whatever comes after it)
+    befores = [(x, t) for x, (a, t, kind) in zip(texts, expect) if kind == "before"]
+    spec = run_driver(["parse-spec " + hx(x) for x, _ in befores])
+    for (x, t), sv in zip(befores, spec):
+        if not (sv.startswith("accept") or " endExpected" in sv or " endUnfinished" in sv):
+            viol.append({"input_hex": t.hex(), "input": t.decode("latin-1"), "what": "the text before the reported token is already invalid in the supported "
+                         "language (%s): the rejection is reported later than the first token that is wrong in itself" % sv[:100], "before_hex": x.hex()})
     ndiff = []
     for x, (a, t, kind), got, mod in zip(texts, expect, impl, model):
         if got != mod:
@@ -154,9 +205,9 @@ def run(ctx):
             if got != a:
                 viol.append({"input_hex": t.hex(), "input": t.decode("latin-1"), "history_hex": [x.hex() for x, _ in multi[k:k + 3]],
                              "what": "rejection reported differently by a Parser that had rejected other scripts before: %s, fresh parser: %s" % (got[:100], a[:100])})
-    _DIFFS[:] = rec.diffs() + ndiff
+    _DIFFS[:] = rec.diffs() + ndiff + mdiff
     fresh, known = split_known("C18", viol, lambda f, v: False)
-    res = std_result(rec, info, fresh, known, RULE, {"tail-variation": {"evaluations": len(texts), "candidates": len(cand)}, "reused-parser": {"evaluations": nre}}, diffs=rec.diffs() + ndiff)
+    res = std_result(rec, info, fresh, known, RULE, {"tail-variation": {"evaluations": len(texts), "candidates": len(cand)}, "reused-parser": {"evaluations": nre}}, diffs=rec.diffs() + ndiff + mdiff)
     res["evaluations"] += len(texts)
     return res
 
